@@ -43,7 +43,7 @@ def run(ctx, report: Report) -> None:
 
     # ---- R1 / R3 -----------------------------------------------------------------------------------------
     r1 = report.rule('C08-R1', 'only the documented TypeError leaves the matching API', floor=1)
-    r3 = report.rule('C08-R3', 'partial operations reachable from the matching API are discharged', floor=3)
+    r3 = report.rule('C08-R3', 'partial operations reachable from the matching API are discharged', floor=9)
     esc = {}
     for e in ENTRIES:
         esc.update(ef.escapes(e))
@@ -184,7 +184,7 @@ def run(ctx, report: Report) -> None:
                                  f'{q} suppresses a possibly-None attribute access with type: ignore')
 
     # ---- R5 ------------------------------------------------------------------------------------------------
-    r5 = report.rule('C08-R5', 'ancestor / sibling walks advance on every path back to the loop head', floor=8)
+    r5 = report.rule('C08-R5', 'ancestor / sibling walks advance on every path back to the loop head', floor=13)
     from ..pathwalk import Domain, Walker
     for q, fn in mmod.functions.items():
         if f'css_match.{q}' not in reach and not q.startswith(('CSSMatch.', '_DocumentNav.')):
